@@ -27,6 +27,42 @@ import (
 
 var lg = zap.NewNop()
 
+// ndjson trace for TraceWal.tla (binding B2); nil when not requested
+var traceW *bufio.Writer
+
+type traceEnt struct {
+	I uint64 `json:"i"`
+	T uint64 `json:"t"`
+	S uint32 `json:"s"`
+	N int    `json:"n"`
+}
+type traceRec struct {
+	K string `json:"k"`
+	I uint64 `json:"i"`
+	T uint64 `json:"t"`
+	V uint64 `json:"v"`
+	C uint64 `json:"c"`
+	S uint32 `json:"s"`
+	N int    `json:"n"`
+}
+
+func emitTrace(id, kind string, hist []Logical, durable int, from uint64, ok bool, hs [3]uint64, ents []Logical) {
+	if traceW == nil {
+		return
+	}
+	h := make([]traceRec, 0, len(hist))
+	for _, l := range hist {
+		h = append(h, traceRec{K: l.Kind, I: l.Index, T: l.Term, V: l.Vote, C: l.Cmt, S: l.Sum & 0x3fffffff, N: l.Dlen})
+	}
+	e := make([]traceEnt, 0, len(ents))
+	for _, l := range ents {
+		e = append(e, traceEnt{I: l.Index, T: l.Term, S: l.Sum & 0x3fffffff, N: l.Dlen})
+	}
+	b, _ := json.Marshal(map[string]interface{}{"id": id, "kind": kind, "hist": h, "durable": durable, "from": from, "ok": ok, "hs": hs, "ents": e})
+	traceW.Write(b)
+	traceW.WriteByte('\n')
+}
+
 // ---------------------------------------------------------------- scenario format
 
 type Op struct {
@@ -72,6 +108,11 @@ type Scenario struct {
 	LostSeed   uint64 `json:"lostseed,omitempty"`
 	Lost2Seed  uint64 `json:"lost2seed,omitempty"`
 	AppNewTerm bool   `json:"appnewterm,omitempty"`
+	// CutCrash: the crash falls inside cut() between the sync of the new segment's head and its rename: the
+	// image is the directory after the last op with the newest segment still under its .tmp name
+	CutCrash bool `json:"cutcrash,omitempty"`
+	// CloseBeforeCrash2: the appended save returned (and the WAL was closed) before the second image is taken
+	CloseBeforeCrash2 bool `json:"close2,omitempty"`
 }
 
 // ---------------------------------------------------------------- deterministic payloads
@@ -159,11 +200,19 @@ func readDir(dir string) (*FileSet, error) {
 	return fs, nil
 }
 
+var imageExtra map[string][]byte // additional (non-wal) files of the next image, e.g. a left-over .tmp
+
 func writeImage(dir string, names []string, data map[string][]byte) error {
 	os.RemoveAll(dir)
 	if err := os.MkdirAll(dir, 0700); err != nil {
 		return err
 	}
+	for n, b := range imageExtra {
+		if err := os.WriteFile(filepath.Join(dir, n), b, 0600); err != nil {
+			return err
+		}
+	}
+	imageExtra = nil
 	for _, n := range names {
 		if err := os.WriteFile(filepath.Join(dir, n), data[n], 0600); err != nil {
 			return err
@@ -507,6 +556,17 @@ func recoverDir(dir string) (rc Recovery, w *wal.WAL) {
 // matchPrefix returns the largest k such that reading back exactly the first k logical records gives
 // (hs, ents); -1 if no prefix does. checkHs=false compares entries only; checkEnts=false hard state only.
 func matchPrefix(hist []Logical, upto int, hs [3]uint64, ents []Logical, checkHs, checkEnts bool) int {
+	return matchPrefixFrom(hist, upto, hs, ents, checkHs, checkEnts, 0)
+}
+
+// matchPrefixFrom: as matchPrefix for a log opened at a snapshot with index `from`: only entries above it
+func matchPrefixFrom(hist []Logical, upto int, hs [3]uint64, ents []Logical, checkHs, checkEnts bool, from uint64) int {
+	return matchPrefixMode(hist, upto, hs, ents, checkHs, checkEnts, from, false)
+}
+
+// asBuilt=true folds the records the way wal.ReadAll does when opened at a snapshot: entries at or below the
+// snapshot index are ignored altogether, so an overwrite at such an index does not drop the entries above it.
+func matchPrefixMode(hist []Logical, upto int, hs [3]uint64, ents []Logical, checkHs, checkEnts bool, from uint64, asBuilt bool) int {
 	best := -1
 	var cur []Logical
 	var chs [3]uint64
@@ -515,11 +575,19 @@ func matchPrefix(hist []Logical, upto int, hs [3]uint64, ents []Logical, checkHs
 			return false
 		}
 		if checkEnts {
-			if len(cur) != len(ents) {
+			c := cur
+			if from > 0 {
+				if uint64(len(c)) > from {
+					c = c[from:]
+				} else {
+					c = nil
+				}
+			}
+			if len(c) != len(ents) {
 				return false
 			}
-			for i := range cur {
-				if !sameLogical(cur[i], ents[i]) {
+			for i := range c {
+				if !sameLogical(c[i], ents[i]) {
 					return false
 				}
 			}
@@ -533,7 +601,15 @@ func matchPrefix(hist []Logical, upto int, hs [3]uint64, ents []Logical, checkHs
 		r := hist[k-1]
 		switch r.Kind {
 		case "entry":
+			if asBuilt && r.Index <= from {
+				break
+			}
 			up := int(r.Index) - 1
+			if asBuilt {
+				for uint64(len(cur)) < from { // placeholders for the entries below the snapshot
+					cur = append(cur, Logical{})
+				}
+			}
 			if up > len(cur) {
 				up = len(cur) // cannot happen for writer-generated histories
 			}
@@ -673,7 +749,11 @@ type realView struct {
 
 func checkRecovered(sink *Sink, sc *Scenario, rv *realView, what string, rc *Recovery, hist []Logical, durable int, meta []byte) (k int, bad bool) {
 	rep := func(kind, detail string) {
-		sink.finding(Finding{ID: sc.ID, Class: "violation", Kind: kind, Detail: what + ": " + detail, Sig: what + "/" + kind, Scenario: sc, Real: rv})
+		sig := what + "/" + kind
+		if kind == "unrepairable" {
+			sig += "/" + clip(rc.First)
+		}
+		sink.finding(Finding{ID: sc.ID, Class: "violation", Kind: kind, Detail: what + ": " + detail, Sig: sig, Scenario: sc, Real: rv})
 	}
 	if rc.Panic != "" {
 		rep("panic", rc.Panic)
@@ -766,6 +846,33 @@ func replayScenario(sink *Sink, sc *Scenario, work string, seed uint64) {
 	if sc.AsIs || tail <= 0 || tail > len(after.Names) {
 		tail = len(after.Names)
 	}
+	whatPfx := ""
+	if sc.CutCrash {
+		nb := 1
+		if wr.Before != nil {
+			nb = len(wr.Before.Names)
+		}
+		if len(after.Names) > nb {
+			// the last op cut: undo the rename. The pipeline alternates 0.tmp / 1.tmp; the one that is
+			// missing from the directory is the one that became the new segment.
+			tmp := "0.tmp"
+			if _, ok := after.Data["0.tmp"]; ok {
+				tmp = "1.tmp"
+			}
+			imageExtra = map[string][]byte{tmp: after.Data[after.Names[len(after.Names)-1]]}
+			for _, o := range after.Other {
+				if strings.HasSuffix(o, ".tmp") {
+					imageExtra[o] = after.Data[o]
+				}
+			}
+			tail = len(after.Names) - 1
+			sc.Lost, sc.LostSeed = nil, 0
+			whatPfx = "cutcrash-"
+			sink.label("cutcrash")
+		} else {
+			sc.CutCrash = false
+		}
+	}
 	names := after.Names[:tail]
 	data := cloneData(names, after.Data)
 	tailName := names[tail-1]
@@ -832,6 +939,57 @@ func replayScenario(sink *Sink, sc *Scenario, work string, seed uint64) {
 		sink.finding(Finding{ID: sc.ID, Class: "divergence", Kind: "readmode-error", Detail: "ReadAll(read mode) failed on a crash image: " + ro.Err, Sig: "readmode-error/" + ro.Err, Scenario: sc})
 	}
 
+	// open at every snapshot the log itself advertises (raftexample: ValidSnapshotEntries -> newest -> Open)
+	func() {
+		var snaps []walpb.Snapshot
+		pan := ""
+		func() {
+			defer func() {
+				if p := recover(); p != nil {
+					pan = fmt.Sprint(p)
+				}
+			}()
+			snaps, _ = wal.ValidSnapshotEntries(lg, img)
+		}()
+		sink.stats.Reads++
+		if pan != "" {
+			sink.finding(Finding{ID: sc.ID, Class: "violation", Kind: "panic", Detail: "ValidSnapshotEntries: " + pan, Sig: "snapentries/panic", Scenario: sc, Real: rv})
+			return
+		}
+		for _, s := range snaps {
+			found := s.Index == 0 && s.Term == 0
+			for _, l := range wr.Hist {
+				if l.Kind == "snap" && l.Index == s.Index && l.Term == s.Term {
+					found = true
+				}
+			}
+			if !found {
+				sink.finding(Finding{ID: sc.ID, Class: "violation", Kind: "not-prefix", Detail: fmt.Sprintf("ValidSnapshotEntries returned {index %d term %d} which was never saved", s.Index, s.Term), Sig: "snapentries/not-prefix", Scenario: sc, Real: rv})
+				continue
+			}
+			if s.Index == 0 {
+				continue
+			}
+			so := readRead(img, walpb.Snapshot{Index: s.Index, Term: s.Term})
+			sink.stats.Reads++
+			sink.label("open-at-snapshot")
+			if so.Panic != "" {
+				sink.finding(Finding{ID: sc.ID, Class: "violation", Kind: "panic", Detail: "ReadAll opened at a snapshot: " + so.Panic, Sig: "read-at-snap/panic", Scenario: sc, Real: rv})
+			} else if so.Err == "" {
+				k := matchPrefixFrom(wr.Hist, len(wr.Hist), so.Hs, so.Ents, true, true, s.Index)
+				if k < 0 && matchPrefixMode(wr.Hist, len(wr.Hist), so.Hs, so.Ents, true, true, s.Index, true) >= 0 {
+					sink.finding(Finding{ID: sc.ID, Class: "violation", Kind: "stale-superseded-entry", Detail: fmt.Sprintf("ReadAll opened at snapshot %d returned %d entries (last %d) including an entry that a later save had overwritten (the overwrite started at or below the snapshot index, which ReadAll skips)", s.Index, so.Nents, so.Last), Sig: "read-at-snap/stale-superseded-entry", Scenario: sc, Real: rv})
+				} else if k < 0 {
+					sink.finding(Finding{ID: sc.ID, Class: "violation", Kind: "not-prefix", Detail: fmt.Sprintf("ReadAll opened at snapshot %d returned hs %v and %d entries (last %d): no prefix of the written records gives that", s.Index, so.Hs, so.Nents, so.Last), Sig: "read-at-snap/not-prefix", Scenario: sc, Real: rv})
+				} else if k < rv.Dur {
+					sink.finding(Finding{ID: sc.ID, Class: "violation", Kind: "lost-synced", Detail: fmt.Sprintf("ReadAll opened at snapshot %d returned %d records, %d were synced", s.Index, k, rv.Dur), Sig: "read-at-snap/lost-synced", Scenario: sc, Real: rv})
+				}
+			} else {
+				sink.finding(Finding{ID: sc.ID, Class: "divergence", Kind: "readmode-error", Detail: fmt.Sprintf("ReadAll opened at snapshot %d failed on a crash image: %s", s.Index, so.Err), Sig: "read-at-snap-error/" + so.Err, Scenario: sc})
+			}
+		}
+	}()
+
 	// recovery in write mode (+ Repair)
 	rc, w2 := recoverDir(img)
 	sink.stats.Reads++
@@ -841,7 +999,11 @@ func replayScenario(sink *Sink, sc *Scenario, work string, seed uint64) {
 			func() { defer func() { recover() }(); w2.Close() }()
 		}
 	}()
-	k1, bad := checkRecovered(sink, sc, rv, "recovery", &rc, wr.Hist, rv.Dur, wr.Meta)
+	emitTrace(sc.ID+"/recovery", "crash", wr.Hist, rv.Dur, 0, rc.Ok, rc.Out.Hs, rc.Out.Ents)
+	if ro.Panic == "" && ro.Err == "" {
+		emitTrace(sc.ID+"/read", "crash", wr.Hist, rv.Dur, 0, true, ro.Hs, ro.Ents)
+	}
+	k1, bad := checkRecovered(sink, sc, rv, whatPfx+"recovery", &rc, wr.Hist, rv.Dur, wr.Meta)
 	rv.K1 = k1
 	sink.label("first=" + clip(rc.First))
 	if rc.Rep {
@@ -956,7 +1118,13 @@ func replayScenario(sink *Sink, sc *Scenario, work string, seed uint64) {
 		func() { defer func() { recover() }(); w3.Close() }()
 	}
 	rv.Rec2 = &rcb
-	k2, _ := checkRecovered(sink, sc, rv, "second-recovery", &rcb, hist2, durable2, wr.Meta)
+	if sc.CloseBeforeCrash2 {
+		durable2 = len(hist2)
+	}
+	if !(sc.CutCrash && !rcb.Ok && rcb.First == "crc") { // the known finding C16-F02 is reported by the Go contract
+		emitTrace(sc.ID+"/second-recovery", "crash", hist2, durable2, 0, rcb.Ok, rcb.Out.Hs, rcb.Out.Ents)
+	}
+	k2, _ := checkRecovered(sink, sc, rv, whatPfx+"second-recovery", &rcb, hist2, durable2, wr.Meta)
 	rv.K2 = k2
 	sink.label("epoch2")
 	if rcb.Rep {
@@ -1103,6 +1271,7 @@ func main() {
 	n := fs.Int("n", 100, "number of random cases / images")
 	full := fs.Bool("full", false, "corrupt: every offset of the zero tail too")
 	trace := fs.Bool("trace", false, "print BEGIN <id> before every case (to find a case that kills the process)")
+	traceOut := fs.String("traceout", "", "write one ndjson line per reader call for TraceWal.tla")
 	fs.Parse(os.Args[2:])
 	if *work == "" || *out == "" {
 		fmt.Fprintln(os.Stderr, "-work and -out are required")
@@ -1110,6 +1279,15 @@ func main() {
 	}
 	os.MkdirAll(*work, 0700)
 	sink := newSink(*out, cmd)
+	if *traceOut != "" {
+		tf, err := os.Create(*traceOut)
+		if err != nil {
+			fmt.Fprintln(os.Stderr, err)
+			os.Exit(3)
+		}
+		traceW = bufio.NewWriter(tf)
+		defer tf.Close()
+	}
 	switch cmd {
 	case "replay":
 		f, err := os.Open(*in)
@@ -1155,5 +1333,8 @@ func main() {
 		os.Exit(3)
 	}
 	sink.close()
+	if traceW != nil {
+		traceW.Flush()
+	}
 	os.RemoveAll(*work)
 }
